@@ -34,7 +34,9 @@
        phase 1, the target is type checked and appended (unique collections: once).
 
    ABSTRACTIONS (validated by the correspondence in harness/props/c08.py)
-     * names are identifiers: a class / feature name is a number (the harness keeps the table);
+     * names are identifiers: a class / feature name is a number (the harness keeps the table; a feature
+       named 'href' is NOT such an identifier: pyecore reads an un-prefixed href attribute as the mark of a
+       proxy, see notes/c08_href_feature_name.py);
        inside a fragment text a feature name is ONE symbol (code point 0x110000 + id, outside
        Unicode, so it is neither white space nor '/', '.', '#', '@' nor a digit);
      * the infoset is what lxml hands to the reader after namespace processing: per element its tag
@@ -118,6 +120,12 @@ Definition t_cls {R} (t : tree R) : cid := match t with Node c _ _ _ _ => c end.
 Fixpoint forget {R} (t : tree R) : tree R :=
   match t with
   | Node c _ a r ks => Node c [] a r (map (fun p => (fst p, forget (snd p))) ks)
+  end.
+
+(* the state in which every feature of every object was assigned (everything is in `_isset`) *)
+Fixpoint set_all {R} (ids : Z -> list Z) (t : tree R) : tree R :=
+  match t with
+  | Node c _ a r ks => Node c (ids c) a r (map (fun p => (fst p, set_all ids (snd p))) ks)
   end.
 
 (* classes and nesting only: what fragments are computed from and resolved against *)
@@ -684,6 +692,9 @@ Section Wf.
 End Wf.
 
 Definition wf_forest (mm : mmodel) (F : forest) : bool := forallb (wf_tree mm (map skel F)) F.
+
+Definition all_ids (mm : mmodel) (c : cid) : list fid :=
+  match find_class mm c with Some k => map f_id (all_feats k) | None => [] end.
 
 (* ---------------------------------------------------------------- token codec for the extracted driver *)
 (* a reader of a token stream *)
